@@ -223,6 +223,8 @@ class FlowGraph:
             for f in fs:
                 self.add((bk, l, None), (bk, l, f), "base2field", bk, None, None)
                 self.add((bk, l, f), (bk, l, "*"), "field2whole", bk, None, None)
+                # opt-in: something stored into a field is held by the whole value
+                self.add((bk, l, f), (bk, l, None), "alias_fb", bk, None, None)
 
     def deref_write_targets(self, bk, p):
         """If place p writes through a reference local (has deref), the referent nodes that are
@@ -322,8 +324,9 @@ class FlowGraph:
         for sn in srcs:
             for d in dsts:
                 self.add(sn, d, kind, bk, bi, si, info)
-        if k == "ref" and r.get("m") == "mut":
-            # data written through the borrow reaches the borrowed place
+        if (k == "ref" and r.get("m") == "mut") or (k == "use" and (dstp.get("ty", "").startswith("&mut ") or "IterMut<" in dstp.get("ty", "") or "<&mut " in dstp.get("ty", ""))):
+            # data written through the borrow (or a copy of the `&mut` reference) reaches the
+            # borrowed place
             for sn in srcs:
                 for d in dsts:
                     self.add(d, sn, "alias", bk, bi, si, None)
@@ -421,7 +424,7 @@ class FlowGraph:
                 for sn in self.operand_reads(bk, o):
                     for dn in dsts:
                         self.add(sn, dn, kind, bk, bi, "t", {"names": names, "arg": ai})
-                        if mut_plumb and (ai == 0 or d.rsplit("::", 1)[-1] == "zip"):
+                        if mut_plumb and o["k"] != "const" and any(m in o["p"]["ty"] for m in ("IterMut<", "&mut ", "ChunksMut<")):
                             self.add(dn, sn, "alias", bk, bi, "t", {"names": names, "arg": ai})
                 # unknown referent of a &mut argument: the reference value itself carries the write
                 if not prim and o["k"] in ("copy", "move") and o["p"]["ty"].startswith("&mut ") and not self._referent_nodes(bk, o["p"]):
@@ -457,7 +460,7 @@ class FlowGraph:
     # ---------------------------------------------------------------- queries
     OPT_IN = frozenset(["alias", "lcall", "mutarg2"])
 
-    def forward(self, seeds, edge_ok=None, node_ok=None, local=False):
+    def forward(self, seeds, edge_ok=None, node_ok=None, local=False, deep=False):
         """Forward reachability.  Returns dict node -> predecessor edge (None for seeds).
         local=True also follows the opt-in summary/alias edges meant for body-local slices."""
         seen = {}
@@ -472,6 +475,8 @@ class FlowGraph:
                 if e.dst in seen:
                     continue
                 if not local and e.kind in self.OPT_IN:
+                    continue
+                if e.kind == "alias_fb" and not deep:
                     continue
                 if edge_ok is not None and not edge_ok(e):
                     continue
@@ -494,6 +499,8 @@ class FlowGraph:
                 if e.src in seen:
                     continue
                 if not local and e.kind in self.OPT_IN:
+                    continue
+                if e.kind == "alias_fb":
                     continue
                 if edge_ok is not None and not edge_ok(e):
                     continue
